@@ -454,6 +454,10 @@ def inject_native_modules(scratch_repo, files):
     for rel in sorted(files):
         src = os.path.join(ROOT, 'contracts', 'native', rel)
         dst = os.path.join(scratch_repo, rel)
+        if rel.startswith('tests/'):
+            os.makedirs(os.path.dirname(dst), exist_ok=True)
+            shutil.copy(src, dst)
+            continue
         if not os.path.exists(dst):
             return f'target file {rel} no longer exists in /repo'
         with open(dst, 'a') as f:
@@ -467,28 +471,36 @@ def native_run(scratch_repo, tests, timeout):
     out = {}
     env = dict(ENV)
     env['RUST_BACKTRACE'] = '0'
-    for is_bin in (False, True):
-        sel = [t for t in tests if bool(t.get('bin')) == is_bin]
-        if not sel:
-            continue
-        cmd = ['cargo', 'test', '--offline', '--release'] + (['--bin', 'hdwallet'] if is_bin else ['--lib']) + \
-              ['verif_native', '--', '--test-threads', str(NPROC), '--show-output']
+    groups = {}
+    for t in tests:
+        if t['file'].startswith('tests/'):
+            g = ('test', os.path.basename(t['file'])[:-3])
+        else:
+            g = ('bin', 'hdwallet') if t.get('bin') else ('lib', '')
+        groups.setdefault(g, []).append(t)
+    for (kind, name), sel in groups.items():
+        target = {'lib': ['--lib'], 'bin': ['--bin', 'hdwallet'], 'test': ['--test', name]}[kind]
+        filt = ['verif_native'] if kind != 'test' else []
+        cmd = ['cargo', 'test', '--offline', '--release'] + target + filt + ['--', '--test-threads', str(NPROC), '--show-output']
         rc, so, se, wall = run(['timeout', '-k', '10', str(timeout)] + cmd, cwd=scratch_repo, env=env)
         for t in sel:
-            m = re.search(r'^test (\S*verif_native::' + re.escape(t['name']) + r') \.\.\. (\w+)', so, flags=re.M)
+            m = re.search(r'^test (\S*?' + re.escape(t['name']) + r') \.\.\. (\w+)', so, flags=re.M)
             if not m:
                 out[t['name']] = dict(status='undecided', message='native test did not run (rc=%s): %s' % (rc, (se[-1500:] + so[-500:])), cases=0, time_s=wall, cmd=' '.join(cmd))
                 continue
             full, verdict = m.group(1), m.group(2)
             cases = 0
-            cm = re.search(r'VERIF-NATIVE-CASES ' + re.escape(t['name']) + r' (\d+)', so)
+            cm = re.search(r'VERIF-NATIVE-CASES ' + re.escape(t['name']) + r' (\d+)(?: nontrivial (\d+))?', so)
+            nontrivial = 1
             if cm:
                 cases = int(cm.group(1))
+                if cm.group(2):
+                    nontrivial = int(cm.group(2))
             msg = ''
             if verdict != 'ok':
                 sm = re.search(r'---- ' + re.escape(full) + r' stdout ----\n(.*?)(?=\n---- |\nfailures:|\Z)', so, flags=re.S)
                 msg = (sm.group(1) if sm else so[-1500:])[:3000]
-            out[t['name']] = dict(status='discharged' if verdict == 'ok' else 'refuted', message=msg, cases=cases, time_s=round(wall, 1), cmd=' '.join(cmd), test=full)
+            out[t['name']] = dict(status='discharged' if verdict == 'ok' else 'refuted', message=msg, cases=cases, nontrivial=nontrivial, time_s=round(wall, 1), cmd=' '.join(cmd), test=full)
     return out
 
 
@@ -640,7 +652,7 @@ def main():
                     oid = f"native:{t['name']}"
                     functions_under_contract.append(dict(engine='native-bounded', file=t['file'], function=t['fn'], harness=t['name'], complete=False, bound=t['bound']))
                     if r['status'] == 'discharged':
-                        discharged.append(dict(id=oid, engine='native', complete=False, bound=t['bound'], checks=max(1, r['cases']), covers=1,
+                        discharged.append(dict(id=oid, engine='native', complete=False, bound=t['bound'], checks=max(1, r['cases']), covers=1, nontrivial=r.get('nontrivial', 1),
                                                time_s=r['time_s'], contract=t['obligation']))
                         if r.get('cmd') and r['cmd'] not in checker_cmds:
                             checker_cmds.append(r['cmd'])
@@ -770,9 +782,9 @@ def main():
         samples=[dict(obligation=d['id'], engine=d['engine'], contract=d.get('contract', d.get('kind')), complete=d.get('complete'), bound=d.get('bound', ''))
                  for d in (discharged[:6] + discharged[-2:])] or [dict(note='no obligation discharged in this run')],
         evaluations=sum(d.get('checks', 1) for d in discharged),
-        distinct_nontrivial=len([d for d in discharged if d.get('engine') == 'verus' or d.get('covers', 0) > 0]),
+        distinct_nontrivial=sum(d.get('nontrivial', 1) for d in discharged if d.get('engine') == 'verus' or d.get('covers', 0) > 0),
         rule='one case = one discharged obligation unit (a Verus function/lemma query, or a Kani harness = contract of one real function over its full symbolic domain); '
-             'non-trivial = the harness reached its cover!() after the call under contract (non-vacuous) or is a Verus query that passed its ensures-false canary; '
+             'non-trivial = the harness reached its cover!() after the call under contract (non-vacuous) or is a Verus query that passed its ensures-false canary; for native bounded stand-ins the distinct enumerated inputs that the code under test ACCEPTED (counted by the test itself, 1 if it does not count); '
              'evaluations = individual CBMC property checks + Verus queries',
         exhaustive=False,
         explanation=pinfo.get('explanation', ''),
